@@ -158,7 +158,7 @@ fn run2(mask: [u8; 2], nops: [usize; 2], lmax: usize, nmax: usize, hb: bool) {
     let hint: u8 = kani::any();
     kani::assume(hint < 3);
     let it: It = TProbe { len, hint }.into_con_iter();
-    tbmc::guess_and_validate(len, hb);
+    tbmc::guess_and_validate(len);
     let mut res = [[R0; OPS]; 2];
     let mut t = 0;
     while t < 2 {
